@@ -19,6 +19,10 @@
 EXTENDS Ini, Json, IOUtils, KnownFindings
 
 Pinned == INSTANCE Ini WITH Fixes <- {}
+(* the tree as it is now: the three repairs that were committed as "fix:" (null value, trailing backslash, end of line after a *)
+(* continuation); the two remaining deviations are known findings and are recognised only when the observed second read is    *)
+(* exactly what this transcription predicts for that configuration.                                                             *)
+Current == INSTANCE Ini WITH Fixes <- {"nullcheck", "bufgood", "eol"}
 SE == INSTANCE SequencesExt
 
 (* the explored space, printed once per run so that the harness enumerates exactly what TLC enumerates *)
@@ -55,7 +59,12 @@ Verdict(ev) ==
     ELSE "bad:parse-drift"
   ELSE IF ev.e = "RoundTrip" THEN
     IF ev.ret # "ok" THEN CrashVerdict(ev, ev.text)
-    ELSE IF ~ev.ok1 \/ ~ev.ok2 \/ ev.cfg2 # ev.cfg1 THEN "bad:roundtrip-" \o ClassOf(ev.cfg1)
+    ELSE IF ~ev.ok1 \/ ~ev.ok2 \/ ev.cfg2 # ev.cfg1
+         THEN (IF ev.ok1 /\ KF_C39_listed /\ ClassOf(ev.cfg1) \in {"not-reescaped", "tuple-items-merged"}
+                  /\ (LET p == Current!Parse(Current!PrintCfg(ev.cfg1)) IN
+                        (p.st = "Done" /\ ev.ok2 /\ p.cfg = ev.cfg2) \/ (p.st # "Done" /\ ~ev.ok2))
+               THEN "kf:C39-" \o ClassOf(ev.cfg1)
+               ELSE "bad:roundtrip-" \o ClassOf(ev.cfg1))
     ELSE IF ev.ptoks = PrintCfg(ev.cfg1) THEN "ok"
     ELSE IF ev.ptoks = Pinned!PrintCfg(ev.cfg1) THEN "ok"
     ELSE "bad:print-drift"
